@@ -131,6 +131,9 @@ func runConfig(rep *core.Report, pr *rules.Property, repo string, cfg core.Confi
 	looked := p.Looked
 	p.BuildAbsorption(func(n string) bool {
 		if looked[n] || rules.IsAnchorName(n) {
+			if verbose && os.Getenv("COAPCHECK_WHY") != "" && strings.Contains(n, os.Getenv("COAPCHECK_WHY")) {
+				fmt.Println("anchor:", n, "looked:", looked[n], "named-in-rules:", rules.IsAnchorName(n))
+			}
 			return true
 		}
 		for _, k := range knownKeys {
@@ -148,6 +151,7 @@ func runConfig(rep *core.Report, pr *rules.Property, repo string, cfg core.Confi
 		fmt.Println("absorbed helpers:", strings.Join(hs, " "))
 	}
 	env := &rules.Env{P: p, R: rep, Tier: tier, Only: only, Primary: cfg.Name == "linux/amd64"}
+	defer rules.Round5(env, pr.ID)
 	defer rules.Round4(env, pr.ID)
 	defer rules.ErrDiscipline(env, pr.ID) // generic contradiction rule over the functions the property's rules looked up
 	if !env.Primary && pr.RunExtra == nil {
